@@ -10,6 +10,26 @@ import ast
 
 from __main__ import Fact, lean_bool, lean_list, lean_str
 
+import importlib.util
+import os
+import sys
+
+
+def _load_norm():
+    """tools/extractors/normalise_rpc.py, loaded once per process under a name of its own (sys.path is left alone)."""
+    name = "jrv_normalise_rpc"
+    if name not in sys.modules:
+        spec = importlib.util.spec_from_file_location(
+            name, os.path.join(os.path.dirname(os.path.abspath(__file__)), "normalise_rpc.py"))
+        mod = importlib.util.module_from_spec(spec)
+        sys.modules[name] = mod
+        spec.loader.exec_module(mod)
+    return sys.modules[name]
+
+
+norm = _load_norm()
+
+
 PROPERTIES = ["C18"]
 
 STACK_ATTR = "additional_headers"
@@ -298,6 +318,7 @@ def _pop_in_finally(fn):
 
 
 def facts(src):
+    src = norm.nsource(src)
     ro = _readonly(src)
     emit = src.func("jsonrpc", "TransportMixIn.emit_additional_headers")
     blk = src.func("jsonrpc", "ServerProxy._additional_headers")
